@@ -96,7 +96,13 @@ func main() {
 			pos := 1 + r.Intn(len(ops)/2+1)
 			out := append([]wl.Op{}, ops[:pos]...)
 			out = append(out, ins...)
-			return append(out, ops[pos:]...)
+			out = append(out, ops[pos:]...)
+			if r.Chance(1, 8) {
+				// a keystore with more than 256 keys on one branch (indices that no longer fit one byte), then a restart:
+				// after unlocking, every one of them signs again (placed last: every later step would sign them all)
+				out = append(out, wl.Op{Kind: "next", N: 250 + r.Intn(60), Internal: r.Bool(), K: 0}, wl.Op{Kind: "restart"}, wl.Op{Kind: "unlock", PC: "cur"}, wl.Op{Kind: "sign", N: 255 + r.Intn(10)})
+			}
+			return out
 		},
 		After: func(e *wl.Env) { keeperPath(run, e) },
 		Nontrivial: func(e *wl.Env) bool {
